@@ -158,3 +158,51 @@ func VerifC01Op() {
 		vAssert(alpha || !done, "C02/alphabet-methods-need-alphabet")
 	}
 }
+
+// C02 with a THIRD-PARTY CONTRACT as the caller: the probe contract "puller" calls the public transfer with
+// arguments of the transaction sender's choosing (param 0: 0 from the victim to the puller itself, 1 from the
+// victim to another account, 2 from the puller's own funds to another account). Amount in Z, the victim's
+// witness symbolic, a stranger always signs. The victim's balance can decrease only with the victim's witness;
+// the calling contract may spend its own funds and nobody else's; a refusal reports false and changes nothing.
+func VerifC02ThirdPartyContract() {
+	kind := vParam(0)
+	deployBalanceWorld()
+	vDeploy("probe3")
+	puller, victim, other := vContractHash("probe3"), vAcct("a0"), vAcct("a1")
+	x, px, amt := vInt("victimBalance"), vInt("pullerBalance"), vInt("amount")
+	vAssume(x >= 1 && x <= 1000000 && px >= 1 && px <= 1000000)
+	vAssume(mint(victim, x))
+	vAssume(mint(puller, px))
+	victimSigns := vBool("victimSigns")
+	from, to := victim, puller
+	switch kind {
+	case 1:
+		to = other
+	case 2:
+		from, to = puller, other
+	}
+	sup := supply()
+	vSign(victim, victimSigns)
+	vSign(vAcct("stranger"), true)
+	ok, r := vInvoke("probe3", "pull", vContractHash("balance"), from, to, amt)
+	moved := ok && r.(bool)
+	bv, bp, bo := balOf(victim), balOf(puller), balOf(other)
+	vAssert(bv >= x || victimSigns, "C02/debit-a0-authorised")
+	vAssert(bv+bp+bo == sup && supply() == sup, "C01/sum-equals-supply")
+	if kind == 2 {
+		// the account is the contract making the call: no witness is needed for its own funds
+		vRequire(moved && amt > 0, "contract-spends-its-own-funds")
+		vAssert(bv == x, "C02/debit-a0-authorised")
+		if moved {
+			vAssert(bp == px-amt && bo == amt && amt >= 0 && amt <= px, "C02/transfer-moves-exactly-the-amount")
+		}
+	} else {
+		vCoverIf(!moved && !victimSigns && amt > 0 && amt <= x, "pull-of-foreign-funds-refused")
+		if moved {
+			vAssert(victimSigns && amt >= 0 && amt <= x, "C02/debit-a0-authorised")
+		}
+	}
+	if !moved {
+		vAssert(bv == x && bp == px && bo == 0 && vEventCount() == 0, "C02/refused-transfer-reports-false-and-changes-nothing")
+	}
+}
